@@ -120,7 +120,11 @@ def insertUniq (le : α → α → Bool) (eq : α → α → Bool) (x : α) : Li
   | y :: ys => if eq x y then y :: ys else if le x y then x :: y :: ys else y :: insertUniq le eq x ys
 
 def ssetInsert (x : Bytes) (l : List Bytes) : List Bytes := insertUniq Bytes.le (· == ·) x l
-def nsetInsert (x : F64) (l : List F64) : List F64 := insertUniq F64.le F64.eq x l
+/-- Go map assignment with a float key overwrites the stored key too (`-0` and `0` are
+    one key, the one inserted last is kept) -/
+def nsetInsert (x : F64) : List F64 → List F64
+  | [] => [x]
+  | y :: ys => if F64.eq x y then x :: ys else if F64.le x y then x :: y :: ys else y :: nsetInsert x ys
 def bsetAdd (x : Bytes) (l : List Bytes) : List Bytes := if l.contains x then l else l ++ [x]
 
 /- `MapToObject`; `none` is the "value type is not supported yet" / ParseFloat error.
